@@ -72,7 +72,7 @@ finding(["C18"], "P2", "tensor.(*Dense).Norm(t)", "Norm (unordered / Frobenius /
 
 finding(["C16"], "S11", "tensor.(*AP).setDataOrder", "setDataOrder (called by handleFuncOpts on the reuse tensor) flips the column-major bit and keeps the row-major strides: Add(colA, colB, WithReuse(rowR)) returns flag ColMajor with strides [3 1]; At(0,1)=13 instead of 11", "flag flipped, strides kept", 40)
 
-finding(["C12","C07"], "P3", "tensor.(StdEng).Map", "StdEng.Map with a caller-supplied reuse tensor maps over reuse's previous contents (the operand is never copied into it): Apply(x2, WithReuse([10,20,30])) = [20,40,60]", "2 of 10 kernel paths", 22)
+finding(["C12","C07"], "P3", "tensor.(StdEng).Map", "StdEng.Map in increment mode maps the increment tensor onto itself: Apply(f, WithIncr(t)) computes t += f(t), not t += f(a) - the in-place map kernels have no two-buffer form (the plain WithReuse case was repaired by 06dec87)", "2 of 20 kernel paths", 22)
 
 # ---- engine L (layout predicates) ------------------------------------------------------------
 finding(["C12","C16","C07","C06","C11","C04"], "L0", "tensor.prepDataUnary#useIter",
@@ -89,6 +89,7 @@ finding(["C14"], "F1", "tensor.numpyDtypes[Int32]", "GOARCH=386: Int32 is writte
 finding(["C14"], "F1", "tensor.numpyDtypes[Uint32]", "GOARCH=386: Uint32 is written as u4, which the reader maps to Uint", "Uint32->u4->Uint", 43)
 
 FIXED = [
+ {"property":"C12","commit":"06dec87","rule":"P3","key":"tensor.(StdEng).Map","what":"fixed: property=C12 06dec87 StdEng.Map with a caller-supplied reuse tensor mapped over reuse's previous contents: Apply(x2, WithReuse([10,20,30,40])) on [1 2 3 4] = [20 40 60 80] (DESIGN finding 22, reuse part; the incr part stays a known finding)"},
  {"property":"C10","commit":"bde2a07","rule":"L1","key":"tensor.(StdEng).denseRepeat@fastCopyDenseRepeat(, tensor.(StdEng).denseRepeat@copyDenseSliced(","what":"fixed: property=C10 bde2a07 denseRepeat block-copied from the operand's raw storage without consulting its layout: Repeat(a[:,1:3],1,2) was wrong (DESIGN finding 32)"},
  {"property":"C14","commit":"a2e7ce2","rule":"L1","key":"tensor.(*Dense).GobEncode@.Encode(&%data) ?$r.IsMaterializable()","what":"fixed: property=C14 a2e7ce2 GobEncode of a view wrote the whole storage window under the view's shape; GobDecode's sanity check rejected it (expected (3), got 7) (DESIGN finding 28)"},
  {"property":"C20","commit":"687421a","rule":"L3","key":"tensor.(Float32Engine).Add@V., tensor.(Float64Engine).Add@V. ⊨ $a.DataOrder().HasSameOrder($b.DataOrder())","what":"fixed: property=C20 687421a Float32Engine/Float64Engine.Add added a row-major and a column-major operand position by position ([0 4 3 7 6 10]) (DESIGN finding 21)"},
